@@ -754,6 +754,8 @@ def cmShape (lastN : Nat) (c : ReqContent) (headers : List VH) (reorg : Nat) :
 /-- `checkMatched` after the boundary check of the first last-N header -/
 def cmTail (lastN : Nat) (c : ReqContent) (headers : List VH) (last : VH)
     (reorg sampled lastNCount : Nat) : M (Except Nat (Nat × Nat × Nat)) := do
+  if lastNCount = 0 && decide (c.startNumber < last.number) then
+    return .error 400
   if 0 < lastNCount && (headers.getLast?.map (fun l => decide (l.number + 1 = last.number))) ≠ some true then
     return .error 400
   if sampled = 0 then
@@ -914,6 +916,8 @@ theorem cmTail_inv {lastN : Nat} {c : ReqContent} {headers : List VH} {last : VH
   unfold cmTail at h
   split at h
   · simp at h
+  split at h
+  · simp at h
   rename_i hlast
   have hlast' : 0 < lnc → (headers.getLast?.map (fun l => l.number + 1)) = some last.number := by
     intro hpos
@@ -981,6 +985,19 @@ theorem cmTail_inv {lastN : Nat} {c : ReqContent} {headers : List VH} {last : VH
             intro n t hnt
             cases hnt
             omega
+
+/-- an accepted response has a non-empty last-N section when there are blocks since the start
+block (the check added by the repair of `check_if_response_is_matched`) -/
+theorem cmTail_nonempty {lastN : Nat} {c : ReqContent} {headers : List VH} {last : VH}
+    {reorg sampled lnc : Nat} {res : Nat × Nat × Nat}
+    (h : cmTail lastN c headers last reorg sampled lnc = .ok (.ok res))
+    (hlt : c.startNumber < last.number) : 0 < lnc := by
+  unfold cmTail at h
+  split at h
+  · simp at h
+  rename_i hne
+  simp only [Bool.and_eq_true, decide_eq_true_eq, hlt, and_true] at hne
+  omega
 
 theorem cmMid_inv {lastN : Nat} {c : ReqContent} {headers : List VH} {last : VH} {reorg r sc ln : Nat}
     (h : cmMid lastN c headers last reorg = .ok (.ok (r, sc, ln))) :
